@@ -253,23 +253,12 @@ def run(ctx: Ctx) -> None:
         (["a.com", "c.com"], [(b"x", b"y"), (b"host", b"c.com")], True),
         (["a.com"], [(b"host", b"b.com"), (b"host", b"a.com")], False),
     ]
-    ok = True
-    bad = ""
     for names, hdrs, want in table:
         try:
             got = eval_function(vs, {"config.server_names": names, "request.headers": hdrs})
         except Exception as error:  # Unknown construct / raised
             got = f"not evaluable: {error}"
-        if got is not want:
-            ok = False
-            bad = f"server_names={names} headers={hdrs}: {got}, expected {want}"
-            break
-    hostdef = [vs]
-    ctx.check("C01.R9", wv, "host header matched case-insensitively", ok, "with h11_pass_raw_headers the header arrives as the client spelt it (e.g. `Host`): a case-sensitive match yields 404 for a configured server name; the first host header decides. " + bad, vs)
-    rets = [n for n in walk_local(vs) if isinstance(n, ast.Return)]
-    r_true = [r for r in rets if norm(r.value) == "True"]
-    ok = len(r_true) == 1 and ("len(config.server_names) == 0", True) in guard_atoms(r_true[0]) and any(norm(r.value) == "host in config.server_names" for r in rets) and len(rets) == 2
-    ctx.check("C01.R9", wv, "no server_names -> valid; else host in server_names", ok, f"returns: {[norm(r.value) for r in rets]}", vs)
+        ctx.check("C01.R9", wv, f"valid_server_name(server_names={names}, headers={hdrs}) is {want}", got is want, f"gives {got}: with no server_names every request is valid; otherwise the first host header (matched case-insensitively - with h11_pass_raw_headers it arrives as the client spelt it) must be one of the names", vs)
 
     # ---------- R10
     from . import c06
